@@ -1,5 +1,6 @@
 (* C04 - the Y86 register file reads old values, writes at cycle end, M port wins. *)
 From HclV Require Import Base Expr Machine MachineSpec MachineProofs Generated.
+From HclV Require HistorySpec HistoryProofs.
 Open Scope string_scope.
 Open Scope N_scope.
 
@@ -68,3 +69,11 @@ Theorem C04_table_E_before_M :
   write_ports gen_fixed = [("reg_dstE", "reg_inputE"); ("reg_dstM", "reg_inputM")].
 Proof. vm_compute. reflexivity. Qed.
 Print Assumptions C04_table_E_before_M.
+
+(* ---- over whole runs of an accepted program (HistorySpec.v / HistoryProofs.v): registers start at
+   0; each cycle applies the E write then the M write of that cycle's port values; reads see the
+   start-of-cycle content; closed form: a register holds the value last written to it, else 0;
+   register 15 reads 0 throughout *)
+Theorem C04_register_file_history : HistorySpec.stmt_regfile_history.
+Proof. exact HistoryProofs.regfile_history_holds. Qed.
+Print Assumptions C04_register_file_history.
